@@ -141,7 +141,7 @@ def cases(draw):
             trace.append(step)
         return {'part': 'hist', 'setup': H.setup_to_json(axioms, specs), 'trace': trace, 'memo_pick': draw(st.integers(0, 2 ** 30))}
     if draw(st.integers(0, 13)) == 0:
-        n = draw(st.sampled_from([40, 80, 84, 85, 86, 87, 90, 100, 120, 127]))
+        n = draw(st.sampled_from([40, 80, 84, 85, 86, 87, 90, 100, 120, 127, 128, 129, 130, 160, 200]))
         return {'part': 'thunk', 'apps': [], 'wrap': 'none', 'wrap_arg': None, 'memo_pick': draw(st.integers(0, 2 ** 30)),
                 'scale': {'n': n, 'shape': draw(st.sampled_from(['twice', 'chain', 'imp'])), 'picks': sorted(set([0, n - 1] + draw(st.lists(st.integers(0, n - 1), max_size=2))))}}
     _, _, defs = H.pool()
